@@ -50,8 +50,8 @@ Print Assumptions py_emitted_in_schema_except_take_max.
 (* ======== BLOCK F4 (known finding "ts-rejects-emitted-action:take_max") ========
    True of the code as it is.  Once take_max is added to validateAction / resolveAction in decisions.ts and to
    merge_format.schema.json, Gen/Actions.v changes, this theorem fails, and the block is to be replaced by
-     Theorem py_emitted_accepted : forall a, In a py_emitted -> ts_validate_action a = Ok a.
-     Proof. exact (TsDecisionsProofs.py_emitted_accepted_if_take_max_accepted eq_refl). Qed. *)
+     [py_emitted_accepted : forall a, In a py_emitted -> ts_validate_action a = Ok a], proved by
+     [exact (TsDecisionsProofs.py_emitted_accepted_if_take_max_accepted eq_refl)]. *)
 Theorem take_max_refuted :
   In take_max py_emitted /\ ts_validate_action take_max = Err RuntimeError /\ ~ In take_max schema_actions.
 Proof. exact TsDecisionsProofs.take_max_refuted. Qed.
